@@ -30,7 +30,7 @@ PROPS = {
             "open_obligations": ["accessors outside the modelled set are covered by the reflection sweep of search-C08 only (counted in search_stats.methods)"]},
     "C09": {"lean_target": ["Props.C09"], "gens": [], "searches": ["search-C09"],
             "trusted_base": ["Go memory model and scheduler are outside the model: data races / real blocking are exercised by search-C09 (history sweeps; goroutine stress under -race), not proved",
-                             "the protocol theorem assumes LunarYear.compute does not panic (NewLunarYear unlocks without defer)"]},
+                             "the protocol model has a crash step (compute panics): the lock is released by the deferred unlock, which the regenerated shape fact of NewLunarYear requires"]},
     "C10": {"lean_target": ["Props.C10"], "gens": ["gen-bazi"], "searches": ["search-C10"],
             "trusted_base": [ASTRO_TB, "time.Now() is a parameter (endYear) of the model"],
             "open_obligations": ["completeness fails when a Jie instant lies inside the queried two-hour slot (known finding); completeness elsewhere is checked by search-C10, not proved"]},
